@@ -194,6 +194,269 @@ def _bytes_per_mbit() -> int:
     return 1024 * 1024 // 8
 
 
+# ------------------------------------------------------------------------------------------------- inventories (round 3)
+SIM = "simulator"
+
+
+def _py_files(sub: str) -> List[str]:
+    from harness.lib.core import SRC
+    root = SRC / sub
+    return sorted(str(f.relative_to(SRC)) for f in root.rglob("*.py"))
+
+
+def _iface_classes():
+    """Every class under simulator/ that (transitively, by base-class name) derives from NetworkInterface, with its file."""
+    classes = {}
+    for rel in _py_files(SIM):
+        for n in ast.walk(parse(rel)):
+            if isinstance(n, ast.ClassDef):
+                bases = [_u(b).split(".")[-1] for b in n.bases]
+                classes.setdefault(n.name, []).append((rel, n, bases))
+    derived = {"NetworkInterface"}
+    changed = True
+    while changed:
+        changed = False
+        for name, defs in classes.items():
+            if name not in derived and any(b in derived for _, _, bs in defs for b in bs):
+                derived.add(name)
+                changed = True
+    out = []
+    for name in sorted(derived):
+        for rel, node, _ in classes.get(name, []):
+            out.append((name, rel, node))
+    return out
+
+
+def _is_log(s: ast.stmt) -> bool:
+    src = _u(s)
+    return isinstance(s, ast.Expr) and (src.startswith("_LOGGER.") or ".sys_log." in src)
+
+
+def _only_logs_then(stmts: List[ast.stmt], last: str) -> bool:
+    body = [x for x in stmts if not _is_log(x)]
+    return [_u(x) for x in body] == [last]
+
+
+def _is_stub(b: List[ast.stmt]) -> bool:
+    return all(isinstance(x, ast.Pass) or _u(x) in ("return True", "return False") for x in b)
+
+
+def _enable_shape(fn: ast.FunctionDef, who: str) -> List[str]:
+    b = _body(fn)
+    if _is_stub(b):
+        return ["abstract"] if any("abstractmethod" in _u(d) for d in fn.decorator_list) else ["stub"]
+    steps: List[str] = []
+    for st in b:
+        src = _u(st)
+        if isinstance(st, ast.If) and _u(st.test) == "self.enabled" and [_u(x) for x in st.body] == ["return True"] and not st.orelse:
+            steps.append("noop-if-enabled")
+        elif isinstance(st, ast.If) and _u(st.test) == "not self._connected_node" and _only_logs_then(st.body, "return False"):
+            steps.append("needs-node")
+        elif (isinstance(st, ast.If) and _u(st.test) == "self._connected_node.operating_state != NodeOperatingState.ON"
+              and _only_logs_then(st.body, "return False")):
+            steps.append("needs-node-on")
+        elif isinstance(st, ast.If) and _u(st.test) == "not self._connected_link" and _only_logs_then(st.body, "return False"):
+            steps.append("needs-link")
+        elif src == "self.enabled = True":
+            steps.append("set")
+        elif _is_log(st) or (isinstance(st, ast.Assign) and _u(st.targets[0]) == "self.pcap"):
+            continue
+        elif (isinstance(st, ast.If) and _u(st.test) == "self._connected_link" and not st.orelse
+              and [_u(x) for x in st.body] == ["self._connected_link.endpoint_up()"]):
+            steps.append("endpoint_up")
+        elif src == "self.airspace.add_wireless_interface(self)":
+            steps.append("join-airspace")
+        elif src in ("super().enable()", "enabled = super().enable()"):
+            steps.append("super")
+        elif (isinstance(st, ast.If) and _u(st.test) == "hasattr(self._connected_node, 'default_gateway_hello')" and not st.orelse
+              and [_u(x) for x in st.body] == ["self._connected_node.default_gateway_hello()"]):
+            steps.append("hello")
+        elif src in ("return True", "return enabled"):
+            continue
+        else:
+            raise ValueError(f"{who}.enable: unrecognised statement {src}")
+    return steps
+
+
+def _disable_shape(fn: ast.FunctionDef, who: str) -> List[str]:
+    b = _body(fn)
+    if _is_stub(b):
+        return ["abstract"] if any("abstractmethod" in _u(d) for d in fn.decorator_list) else ["stub"]
+    steps: List[str] = []
+    for st in b:
+        src = _u(st)
+        if isinstance(st, ast.If) and _u(st.test) == "not self.enabled" and [_u(x) for x in st.body] == ["return True"] and not st.orelse:
+            steps.append("noop-if-disabled")
+        elif src == "self.enabled = False":
+            steps.append("clear")
+        elif isinstance(st, ast.If) and _u(st.test) == "self._connected_node" and all(_is_log(x) for x in st.body + st.orelse):
+            continue
+        elif (isinstance(st, ast.If) and _u(st.test) == "self._connected_link" and not st.orelse
+              and [_u(x) for x in st.body] == ["self._connected_link.endpoint_down()"]):
+            steps.append("endpoint_down")
+        elif src == "self.airspace.remove_wireless_interface(self)":
+            steps.append("leave-airspace")
+        elif src == "return True":
+            continue
+        else:
+            raise ValueError(f"{who}.disable: unrecognised statement {src}")
+    return steps
+
+
+def _send_shape(fn: ast.FunctionDef, who: str) -> List[str]:
+    b = _body(fn)
+    if _is_stub(b):
+        return ["stub"]
+    if [_u(x) for x in b] == ["self._capture_nmne(frame, inbound=False)", "self._capture_traffic(frame, inbound=False)"]:
+        return ["capture"]          # NetworkInterface.send_frame: bookkeeping only, reached through super()
+    return _send_order(fn, who)
+
+
+def iface_methods() -> List[tuple]:
+    """(class, method, steps) for every class of the NetworkInterface hierarchy that defines send_frame / enable / disable."""
+    out = []
+    for name, rel, node in _iface_classes():
+        for m in node.body:
+            if isinstance(m, ast.FunctionDef) and m.name in ("send_frame", "enable", "disable"):
+                shape = {"send_frame": _send_shape, "enable": _enable_shape, "disable": _disable_shape}[m.name](m, name)
+                out.append((name, rel.split("/")[-1], m.name, shape))
+    return sorted(out)
+
+
+def _enclosing(tree: ast.Module):
+    """node -> 'Class.function' / 'function' of the innermost enclosing def"""
+    where = {}
+
+    def visit(n, ctx):
+        for c in ast.iter_child_nodes(n):
+            nctx = ctx
+            if isinstance(c, ast.ClassDef):
+                nctx = (c.name, None)
+            elif isinstance(c, (ast.FunctionDef, ast.AsyncFunctionDef)):
+                nctx = (ctx[0], c.name) if ctx[1] is None else ctx
+            where[c] = nctx
+            visit(c, nctx)
+    visit(tree, (None, None))
+    return where
+
+
+def _site(rel: str, ctx) -> str:
+    cls, fn = ctx
+    return f"{rel.split('/')[-1]}:{(cls + '.') if cls else ''}{fn or '<module>'}"
+
+
+def capacity_writers() -> List[str]:
+    """Every place in src/primaite that assigns a link bandwidth or a frequency data rate, or calls
+    set_frequency_max_capacity_mbps / register_frequency (definitions excluded)."""
+    out = set()
+    for rel in _py_files(""):
+        tree = parse(rel)
+        where = _enclosing(tree)
+        for n in ast.walk(tree):
+            tgts = []
+            if isinstance(n, ast.Assign):
+                tgts = n.targets
+            elif isinstance(n, (ast.AugAssign, ast.AnnAssign)) and getattr(n, "value", None) is not None:
+                tgts = [n.target]
+            for t in tgts:
+                if isinstance(t, ast.Attribute) and t.attr in ("bandwidth", "data_rate_bps"):
+                    out.add(f"{_site(rel, where[n])}:{_u(t)}=")
+            if isinstance(n, ast.Call) and isinstance(n.func, ast.Attribute) and n.func.attr in (
+                    "set_frequency_max_capacity_mbps", "register_frequency"):
+                out.add(f"{_site(rel, where[n])}:{n.func.attr}()")
+    return sorted(out)
+
+
+def try_sites() -> List[str]:
+    """Every function under simulator/network and simulator/system that contains a `try` (an exception raised below it may be
+    caught there instead of reaching the caller of the action)."""
+    out = set()
+    for sub in ("simulator/network", "simulator/system"):
+        for rel in _py_files(sub):
+            tree = parse(rel)
+            where = _enclosing(tree)
+            for n in ast.walk(tree):
+                if isinstance(n, ast.Try):
+                    out.add(_site(rel, where[n]))
+    return sorted(out)
+
+
+def remote_executors() -> List[str]:
+    """Software that executes a request on its node: call sites of `.apply_request(` under simulator/system, and call sites of
+    `.execute(` on a terminal connection (the callers through which a frame's payload becomes a request)."""
+    out = set()
+    for rel in _py_files("simulator/system"):
+        tree = parse(rel)
+        where = _enclosing(tree)
+        for n in ast.walk(tree):
+            if isinstance(n, ast.Call) and isinstance(n.func, ast.Attribute):
+                if n.func.attr == "apply_request":
+                    out.add(f"{_site(rel, where[n])}:apply_request")
+                elif n.func.attr == "execute" and ("terminal" in _u(n.func.value).lower() or "connection" in _u(n.func.value).lower()):
+                    out.add(f"{_site(rel, where[n])}:execute")
+    return sorted(out)
+
+
+def toggle_sites() -> List[str]:
+    """Every call of `.enable()` / `.disable()` on something that is (by its name) a network interface or port, and of
+    `enable_port` / `disable_port`, under simulator/ — the code that can change `enabled` of an interface."""
+    out = set()
+    iface_names = {c for c, _, _ in _iface_classes()}
+    for rel in _py_files(SIM):
+        tree = parse(rel)
+        where = _enclosing(tree)
+        for n in ast.walk(tree):
+            if isinstance(n, ast.Assign) and rel.startswith("simulator/network"):
+                for t in n.targets:      # direct writes of the flag
+                    if isinstance(t, ast.Attribute) and t.attr == "enabled":
+                        out.add(f"{_site(rel, where[n])}:{_u(t)}={_u(n.value)}")
+            if not (isinstance(n, ast.Call) and isinstance(n.func, ast.Attribute)):
+                continue
+            recv = _u(n.func.value)
+            if n.func.attr in ("enable_port", "disable_port"):
+                out.add(f"{_site(rel, where[n])}:{n.func.attr}")
+            elif n.func.attr in ("enable", "disable") and not n.args and not n.keywords:
+                # every zero-argument enable()/disable() call, except a non-interface class (Service) calling its own
+                cls = where[n][0] or ""
+                if recv in ("self", "super()") and cls not in iface_names:
+                    continue
+                out.add(f"{_site(rel, where[n])}:{recv}.{n.func.attr}")
+    return sorted(out)
+
+
+def size_is_whole_bytes() -> bool:
+    """`Frame.size` = float(len(json)) + payload_size, payload_size = DataPacket.get_packet_size() = packet_payload_size +
+    float(len(json)); the only writer of packet_payload_size passes `file.sim_size`, declared `Optional[int]`.  So every size is
+    an integer-valued float."""
+    frame = class_def(parse("simulator/network/transmission/data_link_layer.py"), "Frame")
+    sz = [_u(x) for x in _body(find_method(frame, "size"))]
+    if sz != ["payload_size = 0.0", "if isinstance(self.payload, DataPacket):\n    payload_size = self.payload.get_packet_size()",
+              "return float(len(self.model_dump_json().encode('utf-8'))) + payload_size"]:
+        raise ValueError(f"Frame.size: unexpected body {sz}")
+    if [_u(x) for x in _body(find_method(frame, "size_Mbits"))] != ["return convert_bytes_to_megabits(self.size)"]:
+        raise ValueError("Frame.size_Mbits: unexpected body")
+    pk = class_def(parse("simulator/network/protocols/packet.py"), "DataPacket")
+    if [_u(x) for x in _body(find_method(pk, "get_packet_size"))] != [
+            "return self.packet_payload_size + float(len(self.model_dump_json().encode('utf-8')))"]:
+        raise ValueError("DataPacket.get_packet_size: unexpected body")
+    writers = []
+    for rel in _py_files(""):
+        for n in ast.walk(parse(rel)):
+            if isinstance(n, ast.keyword) and n.arg == "packet_payload_size":
+                writers.append((rel.split("/")[-1], _u(n.value)))
+            if isinstance(n, (ast.Assign, ast.AugAssign)):
+                for t in (n.targets if isinstance(n, ast.Assign) else [n.target]):
+                    if isinstance(t, ast.Attribute) and t.attr == "packet_payload_size":
+                        writers.append((rel.split("/")[-1], "assignment"))
+    if writers != [("ftp_service.py", "file.sim_size")]:
+        raise ValueError(f"packet_payload_size is written by {writers}")
+    fcls = class_def(parse("simulator/file_system/file.py"), "File")
+    ann = [_u(x) for x in fcls.body if isinstance(x, ast.AnnAssign) and _u(x.target) == "sim_size"]
+    if ann != ["sim_size: Optional[int] = None"]:
+        raise ValueError(f"File.sim_size: unexpected declaration {ann}")
+    return True
+
+
 def lst(xs: List[str]) -> str:
     return "[" + ", ".join(f'"{x}"' for x in xs) + "]"
 
@@ -260,6 +523,7 @@ def emit() -> str:
         _reject_means_node_not_involved(find_method(class_def(parse(SWITCH), "SwitchPort"), "receive_frame"), "SwitchPort"),
         _reject_means_node_not_involved(find_method(class_def(parse(WROUTER), "WirelessAccessPoint"), "receive_frame"), "WirelessAccessPoint"),
     ])
+    ifm = ",\n".join(f'  ("{c}", "{f}", "{m}", {lst(st)})' for c, f, m, st in iface_methods())
     return f"""namespace Primaite.Gen.Link
 /-- `Link.can_transmit_frame`: `if self.is_up: return self.current_load + frame.size_Mbits <= self.bandwidth`; `return False` -/
 def admits (load size cap : Nat) : Bool := decide (load + size {op_link} cap)
@@ -287,5 +551,23 @@ def airCapacityKey : String := "name"
 def rejectedMeansNodeNotInvolved : Bool := {"true" if rej else "false"}
 /-- `convert_bytes_to_megabits`: `B * 8.0 / 1024.0 ** 2.0`, i.e. this many bytes per unit of load -/
 def bytesPerMbit : Nat := {_bytes_per_mbit()}
+/-- `Frame.size`, `DataPacket.get_packet_size`, the only writer of `packet_payload_size` and `File.sim_size : Optional[int]`
+have the shapes that make every frame size an integer-valued float (enforced by the extractor) -/
+def sizeIsWholeBytes : Bool := {"true" if size_is_whole_bytes() else "false"}
+/-- every class of the `NetworkInterface` hierarchy (all of simulator/) that defines `send_frame`, `enable` or `disable`:
+(class, file, method, steps in source order) -/
+def ifaceMethods : List (String × String × String × List String) := [
+{ifm}
+]
+/-- every place in src/primaite that assigns a `bandwidth` / `data_rate_bps` attribute or calls
+`set_frequency_max_capacity_mbps` / `register_frequency` -/
+def capacityWriters : List String := {lst(capacity_writers())}
+/-- every function under simulator/network and simulator/system that contains a `try` statement -/
+def trySites : List String := {lst(try_sites())}
+/-- software that turns a received payload into a request on its node: call sites of `apply_request` under simulator/system, and
+of `.execute(` on a terminal connection -/
+def remoteExecutors : List String := {lst(remote_executors())}
+/-- every call that can change `enabled` of a network interface (under simulator/) -/
+def toggleSites : List String := {lst(toggle_sites())}
 end Primaite.Gen.Link
 """
